@@ -300,6 +300,17 @@ func (w *World) execNetOp(ctx context.Context, toks []string) (bool, error) {
 		}
 		payload, _ := json.Marshal(msg)
 		w.deliverDCTo(ctx, p, q, payload, true)
+	case "liveload":
+		// liveload p n : Load(n) on the store as it is (no restart): whatever it holds, no limit may panic
+		p, n := atoi(toks[1]), atoi(toks[2])
+		s := w.stores[p]
+		if s == nil {
+			w.printf("liveloaded %d nostore\n", p)
+			return true, nil
+		}
+		res := guarded(func() error { return s.Load(ctx, n) })
+		ok := w.quiesce(s)
+		w.printf("liveloaded %d %s quiesce=%v\n", p, res, ok)
 	case "final":
 		w.printf("final\n")
 	case "cut", "heal":
